@@ -574,6 +574,11 @@ class Engine:
                 pf = s.by_name.get('const ' + '::'.join(parts[k:]))
                 if pf is not None and not pf.params and pf.blocks: return s.run_fn(pf, [])
             if 'promoted[' in t and len(parts) >= 2:
+                # a promoted constant belongs to the function that is executing: `<that function's definition name>::promoted[i]`
+                cur = getattr(s, 'cur_fn', None)
+                if cur is not None:
+                    pf = s.by_name.get(f'const {cur.name}::{parts[-1]}')
+                    if pf is not None and not pf.params and pf.blocks: return s.run_fn(pf, [])
                 # impl blocks print as `<impl at file:span>` in the definition but as the type path at the use site: match on `fn::promoted[i]`
                 tail = '::'.join(parts[-2:])
                 cands = [g for nm, g in s.by_name.items() if nm.startswith('const ') and nm.endswith('::' + tail) or nm == 'const ' + tail]
@@ -896,6 +901,11 @@ class Engine:
         raise Missing(f'call of {f!r}')
 
     def run_fn(s, f, args):
+        prev = getattr(s, 'cur_fn', None); s.cur_fn = f          # the executing function (promoted constants are looked up relative to it)
+        try: return s._run_fn(f, args)
+        finally: s.cur_fn = prev
+
+    def _run_fn(s, f, args):
         s.used_fns.add(f.name)
         fr = {i: Cell() for i in f.locals}; fr[0] = Cell()
         for (i, _), v in zip(f.params, args): fr[i].v = v
